@@ -4,7 +4,12 @@
 //!    drive the real code, or
 //!  * an observation / perturbation point (event sink, pause points, clock
 //!    override) that is a no-op until the harness installs a callback.
-#![allow(missing_docs, unreachable_pub, unnameable_types, clippy::type_complexity)]
+#![allow(
+    missing_docs,
+    unreachable_pub,
+    unnameable_types,
+    clippy::type_complexity
+)]
 
 use std::collections::HashMap;
 use std::future::Future;
@@ -16,18 +21,18 @@ use std::time::Duration;
 use bytes::Bytes;
 use uuid::Uuid;
 
+use crate::cluster::ClusterState;
+use crate::cluster::NodeConfig;
 use crate::cluster::metadata::{Keyspace, Metadata, Peer, Strategy, Table};
 use crate::cluster::node::NodeAddr;
-use crate::cluster::NodeConfig;
-use crate::cluster::ClusterState;
 use crate::errors::{RequestAttemptError, RequestError};
 use crate::frame::response::result::TableSpec;
 use crate::frame::types::Consistency;
 use crate::policies::host_filter::HostFilter;
 use crate::policies::retry::RequestInfo;
 use crate::policies::speculative_execution::{self, SpeculativeExecutionPolicy};
-use crate::routing::{Shard, ShardAwarePortRange, Sharder};
 use crate::routing::Token;
+use crate::routing::{Shard, ShardAwarePortRange, Sharder};
 
 // ---------------------------------------------------------------------------
 // Event sink, pause points, clock override
@@ -370,11 +375,18 @@ impl ClusterProbe {
         table: &str,
         payload: &HashMap<String, Bytes>,
     ) -> Result<bool, String> {
-        self.state.verif_add_tablet_from_payload(keyspace, table, payload)
+        self.state
+            .verif_add_tablet_from_payload(keyspace, table, payload)
     }
 
     pub fn tablet_ranges(&self, keyspace: &str, table: &str) -> Option<Vec<TabletDump>> {
         let spec = TableSpec::borrowed(keyspace, table);
         self.state.verif_tablet_ranges(&spec)
     }
+}
+
+/// The hand-off slot of the metadata worker driven by the real `merge_*` constructors of
+/// `MetadataUpdate` (what the consumer would observe).
+pub mod handoff {
+    pub use crate::cluster::metadata::update::verif::{Observed, Step, run};
 }
